@@ -3,7 +3,7 @@
    extracted inductive types (converted by ocaml/scan/driver.ml). *)
 From Coq Require Import List ZArith Extraction ExtrOcamlBasic.
 From LMBase Require Import Res ListX IEEE.
-From LMScan Require Import ScanModel ScanConcrete ScanCheck.
+From LMScan Require Import ScanModel ScanConcrete ScanCheck ScanShape GenScan ShapeConcrete ScanSwitch.
 
 Definition x_of_bits := F32.of_bits.
 Definition x_to_bits := F32.to_bits.
@@ -14,4 +14,8 @@ Extraction Language OCaml.
 Extraction "scan_model.ml"
   x_of_bits x_to_bits
   c_env ce_R ce_Lm ce_scale ce_collect ce_take ce_max_after ce_take_max ce_scores ce_ptab ce_dscore
-  check_c02 check_c03 bits_ge qual remaining first_missing first_spurious ce_wc.
+  check_c02 check_c03 bits_ge qual remaining first_missing first_spurious ce_wc
+  (* the scanner parameterised by the skeleton / constants read from scan.rs (translate/scan_skel.py) *)
+  ce_pcollect ce_ptake ce_ptake_max gen_default_block_size gen_default_threshold_bits gen_shape
+  (* setters called between calls of next() *)
+  ce_switch_collect ce_switch_max.
